@@ -105,7 +105,7 @@ class C05(vlib.PropertyCheck):
         # 2. order laws over pools
         cases += self.pools(oracle)
         # 3. generated programs
-        nprog = 500 if tier == 'quick' else 6000
+        nprog = 500 if tier == 'quick' else 24000
         specs = []
         for i in range(nprog):
             theme = ['own', 'dupi', 'ord', 'map'][i % 4]
